@@ -63,7 +63,7 @@ class Contract:
     """sidecar contract of one repository function"""
 
     def __init__(self, target, params=None, returns=None, requires=(), ensures=(), raises=None,
-                 loops=None, locals=None, modifies=(), cut=True, ghosts=None, self_type=None, note="", defs=(), assigns=None):
+                 loops=None, locals=None, modifies=(), cut=True, ghosts=None, self_type=None, note="", defs=(), assigns=None, hints=None):
         self.target = target                  # 'module:qualname'
         self.params = params or {}            # name -> T (symbolic inputs when verified)
         self.returns = returns                # T of the result at cut call sites
@@ -75,6 +75,9 @@ class Contract:
         self.modifies = list(modifies)        # spec expressions denoting SMT lists / ('field', cname, fname)
         self.cut = cut
         self.ghosts = ghosts or {}
+        # proof hints (intermediate assertions): statement text -> [(name, expr)]; right before a simple statement whose source text contains the key,
+        # each expr is an obligation `hint.<name>` and is then assumed. A key that matches no statement adds nothing (the proof only gets harder)
+        self.hints = hints or {}
         self.assigns = assigns or {}          # 'obj.field' -> spec expr: precise field updates performed by the callee (constructors)
         self.defs = list(defs)                # [(name, expr)] definitional axioms of ghost spec functions / proved lemmas
         self.note = note
@@ -1018,6 +1021,16 @@ class Interp(Ops, Builtins, DynOps):
         m = getattr(self, "st_" + type(s).__name__, None)
         if m is None:
             raise EngineError(f"unsupported statement {type(s).__name__} line {s.lineno}")
+        if not self.spec and fr.fi is not None and isinstance(s, (ast.Expr, ast.Assign, ast.AugAssign, ast.AnnAssign, ast.Return)):
+            c = self.contracts.get(fr.fi.fq)
+            if c is not None and getattr(c, "hints", None) and not c.cut:
+                src = ast.unparse(s)
+                for key, exprs in c.hints.items():
+                    if key in src:
+                        for nm, tx in exprs:
+                            g = self.truth(self.eval_spec(tx, fr))
+                            self.ctx.oblige(f"hint.{nm}", g, s, kind="hint")
+                            self.ctx.assume(g)
         return m(s, fr)
 
     def st_Pass(self, s, fr):
